@@ -2000,14 +2000,21 @@ size_t rtosc_scan_arg_vals(const char* src,
 {
     size_t last_bufsize;
     size_t rd=0;
+    // an array is no left neighbour for a range "b ... c", even if its last
+    // element has the type of b
+    int prev_is_array = 0;
     for(size_t i = 0; i < n; )
     {
         last_bufsize = bufsize;
 
         size_t tmp = rtosc_scan_arg_val(src, args, n-i,
-                                        buffer_for_strings, &bufsize, i, 1);
+                                        buffer_for_strings, &bufsize,
+                                        prev_is_array ? 0 : i, 1);
         src += tmp;
         rd += tmp;
+        prev_is_array = (args->type == 'a') ||
+            (args->type == '-' &&
+             args[1 + !!rtosc_av_rep_has_delta(args)].type == 'a');
         size_t length = next_arg_offset(args);
         i += length;
         args += length;
